@@ -385,14 +385,14 @@ def signature_of_crash(ops, cr):
     k = m.group(2) if m else "?"
     fn = FN.get(k, k)
     if k == "nullarg":
-        w = cr["op"].split(); fn = w[5] if len(w) > 5 else fn
+        w = cr["op"].split(); fn = (w[4] if len(w) > 4 else fn) + ":null-argument"
     se = cr.get("stderr", "")
     if cr.get("leak_only"):
         kinds = set(o["k"] for o in ops)
         return ("C18:ndsparse_destroy:leak" if "nddestroy" in kinds else "C18:sequence:leak"), "LeakSanitizer: the sequence released every handle, result and buffer, yet memory is lost"
     if "terminate called" in se or "!SIGABRT" in se: return "C18:%s:exception-escapes" % fn, "an exception left the extern \"C\" function (std::terminate)"
     if "!TIMEOUT" in se: return "C18:%s:hang" % fn, "watchdog"
-    return "C18:%s:crash" % fn, "sanitizer report / crash: " + " ".join(re.findall(r"(?:ERROR: \w+Sanitizer: [\w-]+|runtime error: [^\n]{0,80})", se)[:2])
+    return "C18:%s:crash" % fn.replace(":null-argument:crash", ":null-argument"), "sanitizer report / crash: " + " ".join(re.findall(r"(?:ERROR: \w+Sanitizer: [\w-]+|runtime error: [^\n]{0,80})", se)[:2])
 
 def execute(env, seqs, tag, out, stats):
     cf = os.path.join(env.dir, "cases_%s.txt" % tag)
